@@ -1,6 +1,7 @@
 package gram
 
 import (
+	"fmt"
 	"sort"
 	"strings"
 )
@@ -173,6 +174,9 @@ func S2() []*Grammar {
 		"L: empty | L a",
 		"L: a | L c a",
 		"L: a L | empty",
+		// five letter-named terminals expected at once (messages that enumerate "a, b, c or d")
+		"S: Op n ; Op: alpha | beta | gamma | delta | eps",
+		"S: S Op n | Op n ; Op: alpha | beta | gamma | delta | eps | zeta",
 		"S: O a ; O: empty | b",
 		"S: A B c ; A: empty | a ; B: empty | b",
 		"S: A B C ; A: empty | a ; B: empty | b ; C: empty | c",
@@ -213,6 +217,18 @@ func S2() []*Grammar {
 		// bodies of length 3+
 		"S: a S b S | empty",
 		"S: a b c | a b d | A c ; A: a b",
+	}
+	// terminals one of whose spellings is the concatenation of two others ( > > >> ,  < = <= ,  a b ab ): a tail
+	// symbol followed by a look-ahead then reads like another look-ahead. Three shapes: LR(1) with the reduction
+	// decided by > versus >>; the same made ambiguous by a third context; nested generics against a shift operator.
+	for _, t := range [][3]string{{`">"`, `">"`, `">>"`}, {`"<"`, `"="`, `"<="`}, {"a", "b", "ab"}} {
+		x, y, xy := t[0], t[1], t[2]
+		specs = append(specs,
+			"Top: Open "+y+" | Shift "+xy+" n ; Open: l Name "+x+" ; Shift: l Val ; Name: i ; Val: i",
+			"Top: Open "+y+" | Shift "+xy+" n | Pack q ; Open: l Name "+x+" ; Shift: l Val ; Pack: l Arg "+xy+" ; Name: n ; Val: i ; Arg: i",
+			"Def: Type i lp rp e E ; Type: i | i l Type "+x+" ; E: Prim "+xy+" E | Const "+xy+" E | Prim ; Prim: Var | lp E rp ; Var: i ; Const: i",
+			"S: A "+x+" "+y+" | B "+xy+" ; A: c ; B: c",
+			"S: l A "+x+" "+y+" | l B "+xy+" | A "+xy+" ; A: c ; B: c")
 	}
 	var out []*Grammar
 	for _, s := range specs {
@@ -325,4 +341,51 @@ func S3(maxAlts int) []*Grammar {
 		}
 	}
 	return out
+}
+
+// S6: large grammars - hundreds of productions (production and state numbers with three digits, item keys past any
+// small threshold): 300 keyword alternatives of one non-terminal inside a statement list, a chain of 260
+// non-terminals, and 64 non-terminals with four alternatives each.
+func S6() []*Grammar {
+	var gs []*Grammar
+	{
+		g := &Grammar{}
+		g.Lex = append(g.Lex, LexDef{"n", "tok", Lit('1')}, LexDef{"semi", "tok", Lit(';')})
+		g.Alts = append(g.Alts, Alt{Head: "Script", Body: []Sym{{Name: "Cmd"}}}, Alt{Head: "Script", Body: []Sym{{Name: "Script"}, {Name: "Cmd"}}},
+			Alt{Head: "Cmd", Body: []Sym{{Name: "Op"}, {Name: "n"}, {Name: "semi"}}})
+		for i := 1; i <= 300; i++ {
+			name := fmt.Sprintf("k%03d", i)
+			g.Lex = append(g.Lex, LexDef{name, "tok", Str(name)})
+			g.Alts = append(g.Alts, Alt{Head: "Op", Body: []Sym{{Name: name}}})
+		}
+		gs = append(gs, g)
+	}
+	{
+		g := &Grammar{Lex: []LexDef{{"x", "tok", Lit('x')}, {"y", "tok", Lit('y')}}}
+		for i := 0; i < 260; i++ {
+			h := fmt.Sprintf("A%d", i)
+			if i < 259 {
+				g.Alts = append(g.Alts, Alt{Head: h, Body: []Sym{{Name: fmt.Sprintf("A%d", i+1)}, {Name: "x"}}})
+			}
+			g.Alts = append(g.Alts, Alt{Head: h, Body: []Sym{{Name: "y"}}})
+		}
+		gs = append(gs, g)
+	}
+	{
+		g := &Grammar{Lex: []LexDef{{"a", "tok", Lit('a')}, {"b", "tok", Lit('b')}, {"c", "tok", Lit('c')}, {"d", "tok", Lit('d')}}}
+		for i := 0; i < 64; i++ {
+			h := fmt.Sprintf("N%d", i)
+			next := fmt.Sprintf("N%d", i+1)
+			if i == 63 {
+				next = "d"
+			}
+			g.Alts = append(g.Alts,
+				Alt{Head: h, Body: []Sym{{Name: "a"}, {Name: next}}},
+				Alt{Head: h, Body: []Sym{{Name: "b"}, {Name: next}, {Name: "b"}}},
+				Alt{Head: h, Body: []Sym{{Name: "c"}}},
+				Alt{Head: h, Body: []Sym{{Name: next}, {Name: "c"}, {Name: "c"}}})
+		}
+		gs = append(gs, g)
+	}
+	return gs
 }
